@@ -64,6 +64,16 @@ pub(crate) fn bbox_write_z_range_to<PointType: HasZ, W: Write>(
     Ok(())
 }
 
+/// Converts a count read from a file, which cannot be negative
+pub(crate) fn checked_count(count: i32) -> Result<usize, std::io::Error> {
+    usize::try_from(count).map_err(|_| {
+        std::io::Error::new(
+            std::io::ErrorKind::InvalidData,
+            "negative number of points or parts",
+        )
+    })
+}
+
 pub(crate) fn read_xy_in_vec_of<PointType, T>(
     source: &mut T,
     num_points: i32,
@@ -72,7 +82,8 @@ where
     PointType: HasMutXY + Default,
     T: Read,
 {
-    let mut points = Vec::<PointType>::with_capacity(num_points as usize);
+    let num_points = checked_count(num_points)?;
+    let mut points = Vec::<PointType>::with_capacity(num_points);
     for _ in 0..num_points {
         let mut p = PointType::default();
         *p.x_mut() = source.read_f64::<LittleEndian>()?;
@@ -106,7 +117,8 @@ pub(crate) fn read_parts<T: Read>(
     source: &mut T,
     num_parts: i32,
 ) -> Result<Vec<i32>, std::io::Error> {
-    let mut parts = Vec::<i32>::with_capacity(num_parts as usize);
+    let num_parts = checked_count(num_parts)?;
+    let mut parts = Vec::<i32>::with_capacity(num_parts);
     for _ in 0..num_parts {
         parts.push(source.read_i32::<LittleEndian>()?);
     }
@@ -169,7 +181,6 @@ impl Iterator for PartIndexIter<'_> {
                 .copied()
                 .unwrap_or(self.num_points);
             self.current_part_index += 1;
-            debug_assert!(end_of_part_index >= start_of_part_index);
             Some((start_of_part_index, end_of_part_index))
         } else {
             None
@@ -201,8 +212,20 @@ impl<'a, PointType: Default + HasMutXY, R: Read> MultiPartShapeReader<'a, PointT
         bbox_read_xy_from(&mut bbox, source)?;
         let num_parts = source.read_i32::<LittleEndian>()?;
         let num_points = source.read_i32::<LittleEndian>()?;
+        checked_count(num_points)?;
         let parts_array = read_parts(source, num_parts)?;
-        let parts = Vec::<Vec<PointType>>::with_capacity(num_parts as usize);
+        // each part starts where the previous one ends, all of them within the points
+        let mut previous = 0;
+        for start in parts_array.iter().copied() {
+            if start < previous || start > num_points {
+                return Err(std::io::Error::new(
+                    std::io::ErrorKind::InvalidData,
+                    "parts are not in ascending order within the points",
+                ));
+            }
+            previous = start;
+        }
+        let parts = Vec::<Vec<PointType>>::with_capacity(parts_array.len());
         Ok(Self {
             num_points,
             num_parts,
